@@ -81,9 +81,13 @@ def _tiny_classes():
     class TinyK(KTable, TinyOp):
         """In-memory k-table: kcoeff[nP, nT, nW, ng]."""
 
-        def __init__(self, name, wn, T, P, k, weights, mode='linear', keep_dtype=False):
+        def __init__(self, name, wn, T, P, k, weights, mode='linear', keep_dtype=False, stored='pTwg'):
             TinyOp.__init__(self, name, wn, T, P, k, mode, keep_dtype)
             self._w = np.array(weights, dtype=float)
+            if stored == 'pTgw':
+                # the coefficients are kept in memory in the axis order (P, T, g, wn) of another file convention and
+                # exposed as a transposed VIEW of that array: same numbers, same shape, not C-contiguous
+                self._x = np.ascontiguousarray(self._x.transpose(0, 1, 3, 2)).transpose(0, 1, 3, 2)
 
         weights = property(lambda s: s._w)
     return TinyOp, TinyK
